@@ -184,3 +184,10 @@ for cfg in CONFIGS:
     CONTRACTS.append(_mk_getitem(cfg))
     for key in FIELDS:
         CONTRACTS.append(_mk_getattr(cfg, key))
+
+
+# --- the raw-text machinery under every lazily read table (contracts proved for C04): row selection keeps rows and fields, compaction re-bases every
+# offset, concatenation shifts them - what a lazy table writes and parses after such steps is what the eager table holds
+from contracts import clone_for as _clone      # noqa: E402
+from contracts import c04 as _c04               # noqa: E402
+CONTRACTS += [_clone(_c04.make_contiguous, "C05"), _clone(_c04.getitem, "C05"), _clone(_c04.cat2, "C05")]
